@@ -15,6 +15,15 @@ Abstract case (JSON, identical to the records TLC enumerates in tla/AnnotateCase
            "destroy": int (0 none, k), "attrs": ""|"kv"|"k"}
 Parameter k of the case is called p<k> (p<k>_data when "ud"); methods get an additional leading
 `FooObj *self`, throwing callables a trailing `GError **error`; neither is part of "params".
+
+Declaration shapes that the scanner emits TWICE (kind "method", extra fields "shape" and "copy"):
+  shape "movedto": `foo_recs_c<N>(FooRec *self, ...)` -- starts with the type prefix foo_rec but not with foo_rec_, so
+      the scanner keeps the <function> (copy 2: self is its parameter 0) and adds a <method moved-to=...> to FooRec
+      (copy 1: self is the instance parameter);
+  shape "vfunc":   the slot `(*c<N>)(FooObj *self, ...)` of the class structure _FooObjClass, documented by the block
+      FooObjClass::c<N> -- emitted as <virtual-method> of FooObj (copy 1) and as <field><callback> of the class
+      structure (copy 2: self is parameter 0).
+An index attribute (closure, destroy, array length) counts positions among the <parameter>s of THAT element.
 """
 import re
 
@@ -60,7 +69,8 @@ def normalize(case):
         a['et'] = list(a['et'])
         return dict(ck=v['ck'], ptr=int(v.get('ptr', 0)), const=bool(v.get('const', False)), ud=bool(v.get('ud', False)), ann=a)
     return dict(id=case['id'], kind=case['kind'], throws=bool(case.get('throws', False)),
-                ret=nv(case['ret']), params=[nv(p) for p in case['params']])
+                ret=nv(case['ret']), params=[nv(p) for p in case['params']],
+                shape=case.get('shape', 'plain'), copy=int(case.get('copy', 1)))
 
 
 def pname(case, k):
@@ -121,21 +131,34 @@ CFILE = '/src/foo.c'
 
 
 def symbol_name(case, n):
+    """key of the emitted element in index_callables()"""
+    shape = case.get('shape', 'plain')
+    if shape == 'movedto':
+        return ('M:foo_recs_c%d' if case.get('copy', 1) == 1 else 'foo_recs_c%d') % n
+    if shape == 'vfunc':
+        return ('V:c%d' if case.get('copy', 1) == 1 else 'F:c%d') % n
     return {'function': 'foo_c%d', 'method': 'foo_obj_c%d', 'callback': 'FooC%d'}[case['kind']] % n
+
+
+def is_member(case):
+    return case.get('shape', 'plain') == 'vfunc'
 
 
 def render(case, n):
     """-> (symbol, (comment text, file, line), {value index (0 = return): comment line})"""
-    name = symbol_name(case, n)
+    shape = case.get('shape', 'plain')
+    name = {'movedto': 'foo_recs_c%d' % n, 'vfunc': 'FooObjClass::c%d' % n}.get(shape) or symbol_name(case, n)
     params = []
     if case['kind'] == 'method':
-        params.append(('FooObj *', 'self'))
+        params.append(('FooRec *' if shape == 'movedto' else 'FooObj *', 'self'))
     for k, p in enumerate(case['params'], 1):
         params.append((ctext(p), pname(case, k)))
     if case['throws']:
         params.append(('GError **', 'error'))
     line0 = n * LINES_PER_CALLABLE + 1
-    if case['kind'] == 'callback':
+    if shape == 'vfunc':          # a member of struct _FooObjClass (see prelude)
+        sym = S.member(S.funcptr(ctext(case['ret']), params), 'c%d' % n)
+    elif case['kind'] == 'callback':
         sym = S.callback(name, ctext(case['ret']), params, line=line0)
     else:
         sym = S.function(name, ctext(case['ret']), params, line=line0)
@@ -161,10 +184,12 @@ def render(case, n):
     return sym, ('\n'.join(lines), CFILE, line0), where
 
 
-def prelude():
+def prelude(slots=()):
+    """slots: members (virtual slots) of the class structure of FooObj"""
     return [
         S.typedef_struct('FooObj', '_FooObj'), S.struct_def('_FooObj', [('GObject', 'parent_instance')]),
-        S.typedef_struct('FooObjClass', '_FooObjClass'), S.struct_def('_FooObjClass', [('GObjectClass', 'parent_class')]),
+        S.typedef_struct('FooObjClass', '_FooObjClass'),
+        S.struct_def('_FooObjClass', [('GObjectClass', 'parent_class')] + list(slots)),
         S.function('foo_obj_get_type', 'GType', []),
         S.typedef_struct('FooIface', '_FooIface'),
         S.typedef_struct('FooIfaceInterface', '_FooIfaceInterface'),
@@ -252,18 +277,24 @@ def index_callables(tree):
     """GIR tree -> {c identifier / c:type: element} for function, method, callback elements"""
     out = {}
 
-    def walk(n):
+    def walk(n, owner):
         if n['tag'] in ('function', 'method', 'constructor'):
             cid = n['attrs'].get('c:identifier')
-            if cid:
-                out.setdefault(cid, n)       # first occurrence (namespace-level copy and class copy are clones)
+            if cid and n['attrs'].get('moved-to'):
+                out.setdefault('M:' + cid, n)     # the compatibility method next to the function it was made from
+            elif cid:
+                out.setdefault(cid, n)
+        elif n['tag'] == 'virtual-method':
+            out.setdefault('V:' + n['attrs'].get('name', ''), n)
         elif n['tag'] == 'callback':
             ct = n['attrs'].get('c:type')
             if ct:
                 out.setdefault(ct, n)
+            elif owner is not None and owner['tag'] == 'field':
+                out.setdefault('F:' + owner['attrs'].get('name', ''), n)     # slot of a (class) structure
         for c in n['children']:
-            walk(c)
-    walk(tree)
+            walk(c, n)
+    walk(tree, None)
     return out
 
 
